@@ -89,6 +89,9 @@ def load_catalog():
     obs = []
     for rel, path in verif_modules():
         obs += parse_file(path, _module_path(rel), "kani")
+    prog = os.path.join(CONTRACTS, "prog.rs")
+    if os.path.exists(prog):
+        obs += parse_file(prog, "verif_prog", "kani")
     if os.path.isdir(VERUS_DIR):
         for f in sorted(os.listdir(VERUS_DIR)):
             if f.endswith(".rs"):
